@@ -1,1 +1,168 @@
--- property theorems of C09 (not built yet)
+/-
+  C09 — posterior summaries are the weighted statistics of the stored samples.
+  Theorems about `TaurexModel/Posterior.lean` (the definitions `driver_c09` executes), real carrier.
+  Guards: equal lengths, at least one sample, weights `≥ 0` with positive sum — the regime in which the model stands
+  for the code (`cdf /= cdf[-1]` divides by the total weight; `np.interp` needs a non-decreasing `cdf`).
+-/
+import Proofs.C09Lemmas
+
+namespace Taurex.C09
+open Taurex.Posterior
+
+/-- every weighted quantile lies between the smallest and the largest sample -/
+theorem quantile_between (x w : List ℝ) (q lo hi : ℝ) (hlen : x.length = w.length) (hne : x ≠ [])
+    (_hw : ∀ b ∈ w, 0 ≤ b) (_htot : 0 < w.sum) (hlo : ∀ a ∈ x, lo ≤ a) (hhi : ∀ a ∈ x, a ≤ hi) :
+    lo ≤ quantileCorner x w q ∧ quantileCorner x w q ≤ hi := by
+  have hn : nodes x w ≠ [] := by
+    intro h
+    have := nodes_length x w
+    rw [h] at this
+    have hx : 0 < x.length := List.length_pos_iff.2 hne
+    simp at this
+    omega
+  rw [quantileCorner_eq]
+  exact ⟨interpPairs_ge q lo _ hn (fun p hp => hlo _ (nodes_snd_mem hp)),
+         interpPairs_le q hi _ hn (fun p hp => hhi _ (nodes_snd_mem hp))⟩
+
+example : ∃ x w : List ℝ, x.length = w.length ∧ x ≠ [] ∧ (∀ b ∈ w, 0 ≤ b) ∧ 0 < w.sum ∧
+    (∀ a ∈ x, (1 : ℝ) ≤ a) ∧ (∀ a ∈ x, a ≤ 5) :=
+  ⟨[3, 1, 2, 5], [1, 1, 0, 2], rfl, by simp, by norm_num, by norm_num, by norm_num, by norm_num⟩
+
+/-- the quantile is non-decreasing in `q` -/
+theorem quantile_mono_q (x w : List ℝ) (q q' : ℝ) (_hlen : x.length = w.length)
+    (_hw : ∀ b ∈ w, 0 ≤ b) (_htot : 0 < w.sum) (hq : q ≤ q') :
+    quantileCorner x w q ≤ quantileCorner x w q' := by
+  rw [quantileCorner_eq, quantileCorner_eq]
+  exact interpPairs_mono hq _ (nodes_valSorted x w)
+
+example : ((16 : ℝ) / 100 ≤ 50 / 100) ∧ ((50 : ℝ) / 100 ≤ 84 / 100) := by norm_num
+
+/-- The weighted-quantile rule itself.  `nodes x w` (Proofs/C09Lemmas.lean) is the list of pairs
+    (cumulative weight fraction, value) of the samples sorted by value.  With strictly positive weights the quantile
+    at each cumulative fraction is exactly the corresponding sorted sample. -/
+theorem quantile_at_node (x w : List ℝ) (hw : ∀ b ∈ w, 0 < b) :
+    ∀ p ∈ nodes x w, quantileCorner x w p.1 = p.2 := by
+  intro p hp
+  rw [quantileCorner_eq]
+  exact interpPairs_node _ (nodes_absStrict x w hw) p hp
+
+/-- … and between two consecutive nodes `a`, `b` (`a.1 ≤ q < b.1`: `a` is the last node whose fraction is `≤ q`) it
+    is the linear interpolant, left of the first node the smallest sample, from the last node on the largest:
+    this is `np.interp(q, cdf, xsorted)` (weights `≥ 0` suffice for the three cases: the fractions only need to be
+    non-decreasing). -/
+theorem quantile_is_interp (q : ℝ) (pre post : List (ℝ × ℝ)) (a b : ℝ × ℝ) (ps : List (ℝ × ℝ)) :
+    (AbsSorted (pre ++ a :: b :: post) → a.1 ≤ q → q < b.1 →
+      interpPairs q (pre ++ a :: b :: post) =
+        if a.1 < q then ((b.2 - a.2) / (b.1 - a.1)) * (q - a.1) + a.2 else a.2) ∧
+    (AbsSorted (a :: ps) → q < a.1 → interpPairs q (a :: ps) = a.2) ∧
+    (∀ hne : ps ≠ [], (∀ p ∈ ps, p.1 ≤ q) → interpPairs q ps = (ps.getLast hne).2) :=
+  ⟨fun hs ha hb => interpPairs_cell q a b post ha hb pre hs,
+   fun hs hx => interpPairs_left q a ps hs hx,
+   fun hne hall => interpPairs_right q ps hne hall⟩
+
+/-- the nodes of 4 samples with positive weights (rational carrier): fractions 1/5, 2/5, 3/5, 1 -/
+example : (let s := sortPairs (α := Rat) (List.zip [3, 1, 2, 5] [1, 1, 1, 2]);
+    List.zip (cdfOf (s.map Prod.snd)) (s.map Prod.fst)) = [(1 / 5, 1), (2 / 5, 2), (3 / 5, 3), (1, 5)] := by
+  decide +kernel
+
+/-- value / lower error / upper error are the 50 %, 50 − 16 % and 84 − 50 % weighted quantiles, the mean the
+    weighted mean -/
+theorem summary_is_quantiles (t w : List ℝ) :
+    (summary t w).value = quantileCorner t w (50 / 100) ∧
+    (summary t w).sigmaM = quantileCorner t w (50 / 100) - quantileCorner t w (16 / 100) ∧
+    (summary t w).sigmaP = quantileCorner t w (84 / 100) - quantileCorner t w (50 / 100) ∧
+    (summary t w).mean = wmean t w := ⟨rfl, rfl, rfl, rfl⟩
+
+/-- the exact summary of 4 samples with a tie in the weights and a zero weight (rational carrier, kernel-evaluated) -/
+example : (summary (α := Rat) [3, 1, 2, 5] [1, 1, 0, 2]).value = 3 ∧
+    (summary (α := Rat) [3, 1, 2, 5] [1, 1, 0, 2]).sigmaM = 2 ∧
+    (summary (α := Rat) [3, 1, 2, 5] [1, 1, 0, 2]).mean = 7 / 2 := by decide +kernel
+
+/-- both errors are non-negative -/
+theorem summary_signs (t w : List ℝ) (hlen : t.length = w.length) (hw : ∀ b ∈ w, 0 ≤ b) (htot : 0 < w.sum) :
+    0 ≤ (summary t w).sigmaM ∧ 0 ≤ (summary t w).sigmaP := by
+  obtain ⟨_, h2, h3, _⟩ := summary_is_quantiles t w
+  rw [h2, h3]
+  have a := quantile_mono_q t w (16 / 100) (50 / 100) hlen hw htot (by norm_num)
+  have b := quantile_mono_q t w (50 / 100) (84 / 100) hlen hw htot (by norm_num)
+  constructor <;> linarith
+
+/-- jointly permuting samples and weights changes no quantile when the sample values are distinct -/
+theorem quantile_perm (x w x' w' : List ℝ) (q : ℝ) (hlen : x.length = w.length)
+    (hp : (List.zip x w).Perm (List.zip x' w')) (hd : x.Nodup) :
+    quantileCorner x w q = quantileCorner x' w' q := by
+  have hfst : (List.zip x w).map Prod.fst = x := List.map_fst_zip (le_of_eq hlen)
+  have h := sortPairs_perm_eq hp (by rw [hfst]; exact hd)
+  unfold quantileCorner
+  rw [h]
+
+example : ([3, 1, 2, 5] : List ℝ).Nodup ∧
+    (List.zip ([3, 1, 2, 5] : List ℝ) ([1, 1, 0, 2] : List ℝ)).Perm
+      (List.zip ([5, 2, 1, 3] : List ℝ) ([2, 0, 1, 1] : List ℝ)) := by
+  refine ⟨by norm_num, ?_⟩
+  have h := List.reverse_perm ([(5, 2), (2, 0), (1, 1), (3, 1)] : List (ℝ × ℝ))
+  simpa using h
+
+/-- with tied values the result may depend on the order inside the tie group (why `quantile_perm` needs distinct
+    values): two samples of equal value, different weights, rational carrier -/
+example : quantileCorner (α := Rat) [1, 2, 2] [1, 1, 2] (3 / 10) ≠ quantileCorner (α := Rat) [1, 2, 2] [1, 2, 1] (3 / 10) := by
+  decide +kernel
+
+/-- the MAP index is a valid index, no weight exceeds the weight there, and every earlier weight is smaller:
+    it is the first sample of greatest weight -/
+theorem map_is_heaviest (w : List ℝ) (hne : w ≠ []) :
+    argmaxFirst w < w.length ∧ (∀ j, j < w.length → w.getD j 0 ≤ w.getD (argmaxFirst w) 0) ∧
+    (∀ j, j < argmaxFirst w → w.getD j 0 < w.getD (argmaxFirst w) 0) :=
+  argmaxFirst_spec w hne
+
+example : argmaxFirst (α := Rat) [1, 4, 0, 4, 2] = 1 := by decide +kernel
+
+/-- the weighted mean lies between the smallest and the largest sample -/
+theorem wmean_between (x w : List ℝ) (lo hi : ℝ) (hlen : x.length = w.length) (hw : ∀ b ∈ w, 0 ≤ b)
+    (htot : 0 < w.sum) (hlo : ∀ a ∈ x, lo ≤ a) (hhi : ∀ a ∈ x, a ≤ hi) :
+    lo ≤ wmean x w ∧ wmean x w ≤ hi := by
+  unfold wmean
+  rw [sumL_eq, sumL_eq]
+  constructor
+  · rw [le_div_iff₀ htot]; exact wsum_ge lo x w hlen hlo hw
+  · rw [div_le_iff₀ htot]; exact wsum_le hi x w hlen hhi hw
+
+/-- what is stored is the sampler's output unchanged; the MAP vector is the stored sample of greatest weight,
+    the trace of parameter `i` is column `i` of the stored samples, the median vector holds the 50 % quantiles -/
+theorem traces_unchanged (ndim : Nat) (samples : List (List ℝ)) (weights : List ℝ) :
+    (storeOutput ndim samples weights).tracedata = samples ∧
+    (storeOutput ndim samples weights).weights = weights ∧
+    mapVector (storeOutput ndim samples weights) = samples.getD (argmaxFirst weights) [] ∧
+    (∀ i, i < ndim → (storeOutput ndim samples weights).params[i]? = some (summary (column samples i) weights)) ∧
+    (∀ (i k : Nat), (column samples i)[k]? = (samples[k]?).map (fun (row : List ℝ) => row.getD i 0)) := by
+  refine ⟨rfl, rfl, rfl, ?_, ?_⟩
+  · intro i hi
+    simp [storeOutput, hi]
+  · intro i k
+    simp [column]
+
+/-- a derived trace has one entry per sample, entry `i` being the derived value at sample `i`; the re-ordering step
+    of `compute_derived_trace` (`a[dst] = a[src]` with both index arrays equal, as in a single process) is the
+    identity -/
+theorem derived_trace_in_sample_order {γ β : Type} (f : γ → β) (samples : List γ) (p : List Nat) :
+    (derivedTrace f samples).length = samples.length ∧
+    (∀ (i : Nat), (derivedTrace f samples)[i]? = (samples[i]?).map f) ∧
+    scatter p p (derivedTrace f samples) = derivedTrace f samples := by
+  refine ⟨by simp [derivedTrace], fun i => by simp [derivedTrace], ?_⟩
+  generalize derivedTrace f samples = a
+  apply List.ext_getElem?
+  intro i
+  unfold scatter
+  rw [List.getElem?_mapIdx]
+  cases hi : a[i]? with
+  | none => simp
+  | some old =>
+    simp only [Option.map_some]
+    cases hk : p.idxOf? i with
+    | none => rfl
+    | some k =>
+      obtain ⟨hlt, hget, _⟩ := List.idxOf?_eq_some_iff.1 hk
+      have : p[k]? = some i := by rw [List.getElem?_eq_getElem hlt, hget]
+      simp [this, hi]
+
+end Taurex.C09
